@@ -32,7 +32,7 @@ def main():
         ok, log = common.ensure_built(a.property)
         if not ok:
             res.violation("proof", "the Coq development does not build: " + log[-1500:], {"build_log": log[-3000:]})
-    res.audit = common.audit_property(a.property)
+    res.audit = common.audit_property(a.property, a.tier)
     try:
         import puan
         assert os.path.realpath(os.path.dirname(os.path.dirname(puan.__file__))) == os.path.realpath(REPO), puan.__file__
